@@ -14,7 +14,7 @@ TRUSTED = [
 ]
 ASSUMPTIONS = [
     'operands are str, Markup or objects with __html__ (non-string operands: known finding C18-nonstring)',
-    '% formatting fragment: %s %% %(k)s with a single value, a tuple or a non-empty mapping',
+    '% formatting fragment: %s %% %(k)s with a single value, a tuple or a mapping',
 ]
 
 ALPHA = ['&', '<', '>', '"', "'", ';', '#', '3', '4', 'a', 'm', 'p', 'l', 't', 'g', 'q', 'u', 'o',
@@ -223,17 +223,14 @@ def oracle_case(case, M=None):
             # order kept, replaced by name, None dropped, new ones appended in order
             exp = [(k, lastval.get(k, v)) for k, v in case['self'] if k not in removed]
             seen = set(k for k, _ in case['self'])
+            new = {}
             for k, v in other:
                 if v is not None and k not in seen and k not in removed:
-                    exp.append((k, v))
-                    # duplicates on the right are the known finding: expected keeps the code's pairs
+                    new[k] = v       # first position, last value
+            exp += list(new.items())
             if [tuple(x) for x in r] != [tuple(x) for x in exp]:
-                bad('Attrs | keeps order, replaces by name, drops None, appends new', exp, r)
-            rn = [k for k, _ in other]
-            if len(set(n for n, _ in case['self'])) == len(case['self']) and len(set(rn)) == len(rn):
-                if len(set(names)) != len(names):
-                    bad('Attrs | never holds duplicates', 'distinct names', names)
-            elif case.get('strict') and len(set(names)) != len(names):
+                bad('Attrs | keeps order, replaces by name, drops None, appends new names once', exp, r)
+            if len(set(n for n, _ in case['self'])) == len(case['self']) and len(set(names)) != len(names):
                 bad('Attrs | never holds duplicates', 'distinct names', names)
         else:
             names = case['names']
@@ -402,11 +399,11 @@ def gen_cases(rng, n):
             else:
                 fmt, mode, nargs, keys = rand_fmt(rng)
                 c['self'] = fmt
-                if mode == 'map' and keys:
+                if mode == 'map' and (keys or rng.random() < 0.5):
                     c['mode'] = 'map'
                     ks = list(dict.fromkeys(keys))
                     if rng.random() < 0.1:
-                        ks = ks[:-1] or ['zz']   # missing key
+                        ks = ks[:-1]   # missing key, possibly the empty mapping
                     c['kv'] = [[k, list(rand_opnd(rng))] for k in ks]
                 elif nargs == 1 and rng.random() < 0.6:
                     c['mode'] = 'one'
@@ -423,7 +420,7 @@ def gen_cases(rng, n):
                 self_.append([nme, rand_text(rng, 3)])
             if rng.random() < 0.7:
                 other = []
-                for nme in rng.sample(names, rng.randrange(0, 4)):
+                for nme in [rng.choice(names) for _ in range(rng.randrange(0, 5))]:
                     other.append([nme, None if rng.random() < 0.3 else rand_text(rng, 3)])
                 cases.append({'kind': 'attrs', 'op': 'or', 'self': self_, 'other': other})
             else:
